@@ -42,7 +42,7 @@ def renders_its_runs(f):
                 out.append(type(e).__name__)
         return out
     try:
-        return int(view(f) == view(FmtStr(*(Chunk(str(c.s), dict(c.atts)) for c in f.chunks))))
+        return int(view(f) == view(FmtStr(*(Chunk("".join(c.s), dict(c.atts)) for c in f.chunks))))
     except Exception:  # noqa
         return 0
 
@@ -179,7 +179,10 @@ def exec_op(inp):
     elif op == "join":
         sep = B(inp["sep"])
         items = [enc.build_value(v) for v in inp["items"]]
-        ev["res"] = enc_res(lambda: sep.join(items))
+        # the items handed over as a list, a tuple, or a one-shot iterable (generator, iter(), map, reversed)
+        shape = [lambda: items, lambda: tuple(items), lambda: (x for x in items), lambda: iter(items),
+                 lambda: map(lambda x: x, items), lambda: reversed(items[::-1])][inp.get("it", 0) % 6]
+        ev["res"] = enc_res(lambda: sep.join(shape()))
     elif op in ("splice", "append") and inp["new"]["k"] == "s" and any(c in (27, 155) for t, _ in inp["new"]["v"] for c in t):
         # a plain str that carries SGR sequences is parsed by splice / append: the equivalent spelling the verdict is
         # computed from is the same call with the parsed value
